@@ -55,6 +55,9 @@ func init() {
 			odd := []string{"{{", "}}", "@if(", ")", "x", "1", " ", "\n", "\xa0", "\x85", "\v", "\f", "\xc2\xa0", "\t", "\r", "\"", "+"}
 			secs = append(secs, seqSections("odd-bytes-", odd, lk+1, run)...)
 			secs = append(secs, seqSections("moredir-", append(append([]string{}, MoreDirectiveAtoms...), "\\", "(", " ", "x"), 2, run)...)
+			// comments: everything short of the terminator is inside, whatever near-misses of the terminator it holds
+			cmt := []string{"{{--", "--}}", "-", "}", "--", "{", "x", " ", "é", "\n"}
+			secs = append(secs, seqSections("comment-", cmt, lk+3, run)...)
 			// inputs that start with bytes an editor or a tool may put in front: a byte order mark, NUL and
 			// control bytes, zero-width and other non-ASCII characters
 			heads := []string{"\xef\xbb\xbf", "\xff\xfe", "\x00", "\x01", "\xe2\x80\x8b", "\xc2\xa0", "\u2028", "\x1b[0m", "\r", "\n", "\t"}
